@@ -9,6 +9,8 @@ package main
 import (
 	"fmt"
 	"go/types"
+	"net"
+	"strconv"
 )
 
 // JSONBytes is the result of json.Marshal*: only "what value was encoded" is defined.
@@ -43,7 +45,7 @@ func init() {
 		if !isPtr || !types.Identical(opt.Elem().Underlying(), typ.Underlying()) {
 			return p.errorValue(p.e.strOf("json: cannot decode (stub: type mismatch)"))
 		}
-		*out.V.(Ptr) = deepCopy(val, map[Ptr]Ptr{})
+		storeInPlace(out.V.(Ptr), deepCopy(val, map[Ptr]Ptr{}))
 		return Iface{}
 	}
 
@@ -168,7 +170,7 @@ func init() {
 		if !types.Identical(opt.Elem(), typ) {
 			return p.errorValue(p.e.strOf("decode error (stub: body of another type)"))
 		}
-		*out.V.(Ptr) = deepCopy(val, map[Ptr]Ptr{})
+		storeInPlace(out.V.(Ptr), deepCopy(val, map[Ptr]Ptr{}))
 		return Iface{}
 	}
 	intrinsics["vfQueueDecode"] = func(p *Path, fr *frame, a []Value) Value {
@@ -213,4 +215,70 @@ func init() {
 func init() {
 	externals["github.com/hashicorp/go-msgpack/v2/codec.NewDecoder"] = func(p *Path, fr *frame, a []Value) Value { return nilPtr }
 	externals["github.com/hashicorp/go-msgpack/v2/codec.NewDecoderBytes"] = func(p *Path, fr *frame, a []Value) Value { return nilPtr }
+}
+
+func init() {
+	externals["strconv.ParseUint"] = func(p *Path, fr *frame, a []Value) Value {
+		s := a[0].(*Str)
+		ts := p.e.ts
+		if s.opaque {
+			panic(engineError("strconv.ParseUint of opaque string"))
+		}
+		if len(s.b) == 1 && s.b[0].sort == BVSort(64) {
+			return Tuple{s.b[0], Iface{}} // number token: the value it was formatted from
+		}
+		for _, t := range s.b {
+			if t.sort != BVSort(8) {
+				return Tuple{ts.BV(64, 0), p.errorValue(p.e.strOf("strconv.ParseUint: invalid syntax (number token inside other text)"))}
+			}
+		}
+		if cs, ok := s.Concrete(); ok {
+			v, err := strconv.ParseUint(cs, concInt(a[1]), concInt(a[2]))
+			if err != nil {
+				return Tuple{ts.BV(64, v), p.errorValue(p.e.strOf(err.Error()))}
+			}
+			return Tuple{ts.BV(64, v), Iface{}}
+		}
+		// symbolic bytes: a parse error unless every byte is a digit; the value of an all-digit
+		// symbolic string is not modelled (arbitrary)
+		allDigits := ts.Bool(len(s.b) > 0)
+		for _, t := range s.b {
+			allDigits = ts.And(allDigits, ts.And(ts.BVCmp("bvuge", t, ts.BV(8, '0')), ts.BVCmp("bvule", t, ts.BV(8, '9'))))
+		}
+		if p.Branch(allDigits) {
+			return Tuple{p.newInput("parsed.number", BVSort(64)), Iface{}}
+		}
+		return Tuple{ts.BV(64, 0), p.errorValue(p.e.strOf("strconv.ParseUint: invalid syntax"))}
+	}
+	lastIndexByte := func(p *Path, b []*Term, c *Term) *Term {
+		ts := p.e.ts
+		r := ts.BV(64, ^uint64(0))
+		for i := 0; i < len(b); i++ {
+			r = ts.Ite(ts.Eq(b[i], c), ts.BV(64, uint64(i)), r)
+		}
+		return r
+	}
+	externals["internal/bytealg.LastIndexByteString"] = func(p *Path, fr *frame, a []Value) Value {
+		return lastIndexByte(p, a[0].(*Str).b, a[1].(*Term))
+	}
+	externals["internal/bytealg.LastIndexByte"] = func(p *Path, fr *frame, a []Value) Value {
+		return lastIndexByte(p, sliceBytes(a[0].(Slice)), a[1].(*Term))
+	}
+	externals["(*net.TCPAddr).String"] = func(p *Path, fr *frame, a []Value) Value {
+		st := (*a[0].(Ptr)).(Struct)
+		ip, _ := st[0].(Slice)
+		var raw []byte
+		for _, v := range ip {
+			t := v.(*Term)
+			if !t.isConst {
+				panic(engineError("(*net.TCPAddr).String with symbolic IP"))
+			}
+			raw = append(raw, byte(t.u))
+		}
+		port := st[1].(*Term)
+		if !port.isConst {
+			panic(engineError("(*net.TCPAddr).String with symbolic port"))
+		}
+		return p.e.strOf((&net.TCPAddr{IP: net.IP(raw), Port: int(port.S())}).String())
+	}
 }
